@@ -5,6 +5,7 @@ import bz2
 import gzip
 import lzma
 import os
+import pathlib
 
 import numpy as np
 import dataiter as di
@@ -112,6 +113,8 @@ def _frame_plan(draw, max_rows):
             vals = [repl[kind] if build.plan_isna(kind, v) else v for v in vals]
         cols.append({"name": nm, "kind": kind, "vals": vals})
     plan = {"obj": "frame", "fmt": fmt, "suffix": suffix, "opts": opts, "frame": {"n": n, "cols": cols}}
+    if draw(st.integers(0, 3)) == 0:
+        plan["path_forms"] = [draw(st.sampled_from(["str", "path"])), draw(st.sampled_from(["str", "path"]))]
     if cols and draw(st.integers(0, 7)) == 0:
         plan["frame"]["via"] = "marked_by_group_by"        # the frame that is written carries a group_by mark
     if n >= 2 and draw(st.integers(0, 3)) == 0:
@@ -305,7 +308,12 @@ def check(plan, ctx):
         except Exception:
             pass
     path = ctx.path("data" + EXT[fmt] + suffix)
-    writer = lambda p: getattr(data, "write_" + fmt)(p, **opts)
+    # a path may be spelt as a str or as a pathlib.Path, independently for the write and for the read
+    wform, rform = plan.get("path_forms", ["str", "str"])
+    spell = lambda p, form: pathlib.Path(p) if form == "path" else p
+    if "path" in (wform, rform):
+        ctx.cls("path_given_as_pathlib_Path")
+    writer = lambda p: getattr(data, "write_" + fmt)(spell(p, wform), **opts)
     ctx.call(f"write_{fmt}", writer, path)
     if build.snap_frame(data) != before:
         raise Violation(f"write_{fmt} changed its receiver")
@@ -320,7 +328,7 @@ def check(plan, ctx):
         # (only when needed: an omitted argument and an explicitly empty one are not the same call)
         ropts["dtypes"] = {cn: ("datetime64[D]" if kinds[cn] == "d" else "datetime64[us]")
                            for cn in names if kinds[cn] in ("d", "t")}
-    back = ctx.call(f"read_{fmt}", lambda: getattr(di.DataFrame, "read_" + fmt)(path, **ropts))
+    back = ctx.call(f"read_{fmt}", lambda: getattr(di.DataFrame, "read_" + fmt)(spell(path, rform), **ropts))
     exp_names = names
     if fmt == "csv" and opts.get("header") is False:
         exp_names = list("abcdefgh")[:len(names)]
